@@ -378,6 +378,17 @@ def rule_m2345(prog: Program, col: Collector) -> None:
         if okden:
             lp = [f for f in add[0].ctx if f[0] == "for"]
             okden = bool(lp) and lp[-1][3] == ("attr", c, "players") and add[0].value[2] == lp[-1][2]
+    if sv and not okden:
+        # the additions as one left fold: value = reduce(add | iadd, (offs[i] for i in c.players), <v(c) * scale>)
+        from .common import comp_parts
+        c = sv[0].args[1]
+        mul = [e for e in ft2.of_kind("aug") if e.op == "*" and e.value == scale]
+        folds = [e for e in ft2.calls() if is_global(e.func, "functools.reduce") and len(e.args) == 3 and e.args[0] in (("global", "operator.add"), ("global", "operator.iadd"))]
+        for e in folds:
+            parts = comp_parts(e.args[1])
+            if parts is not None and not parts[3] and parts[2] == ("attr", c, "players") and parts[0] == ("index", offs, parts[1]) \
+                    and mul and mul[0].seq < e.seq < sv[0].seq:
+                okden = True
     if sv:
         extra_guards = [f for f in sv[0].ctx if f[0] == "if" and not (is_call_to(f[1], "isinstance") and f[1][2][0] == dgp)]
         col.check(not extra_guards, dref.where(sv[0].node), dref.short, "the restore runs for every table game (no early exit on the norm-info)",
